@@ -10,6 +10,7 @@ import (
 	"math/big"
 	"net"
 	"os"
+	"strings"
 	"sync"
 	"time"
 
@@ -238,6 +239,9 @@ type ELFront struct {
 	UserTxs [][]byte
 	// BlobGas, when set, is reported as blob gas used of built payloads.
 	BlobGas uint64
+	// ExcessBlob, when set, is reported as excess blob gas of built payloads (a chain whose execution genesis starts with a
+	// non-zero excess keeps one while no blobs are used).
+	ExcessBlob uint64
 	// Jitter, when set, delays every engine call by a pseudo-random duration below it (moves the
 	// engine goroutine before/after its sibling goroutine in the application).
 	Jitter  time.Duration
@@ -388,6 +392,7 @@ func (a *engineAPI) ForkchoiceUpdatedV3(update engine.ForkchoiceStateV1, attr *e
 		c.Arg += fmt.Sprintf(" attr{recipient=%x nsys=%d beacon=%x}", attr.SuggestedFeeRecipient[:4], len(attr.GoatTxs), attr.BeaconRoot[:4])
 	}
 	resp := engine.ForkChoiceResponse{PayloadStatus: engine.PayloadStatusV1{Status: engine.VALID}}
+	overrideStatus := ""
 	if ft != nil {
 		c.Result = "fault:" + ft.Kind
 		f.logCall(c)
@@ -403,6 +408,15 @@ func (a *engineAPI) ForkchoiceUpdatedV3(update engine.ForkchoiceStateV1, attr *e
 		case "INVALID", "SYNCING", "ACCEPTED":
 			resp.PayloadStatus.Status = ft.Kind
 			return resp, nil
+		case "INVALID+id", "SYNCING+id", "ACCEPTED+id":
+			// the status says no, yet a payload id comes along (an engine that answers the fork-choice part and the payload
+			// part independently): the status decides, the id must not be used
+			if attr == nil {
+				resp.PayloadStatus.Status = strings.TrimSuffix(ft.Kind, "+id")
+				return resp, nil
+			}
+			overrideStatus = strings.TrimSuffix(ft.Kind, "+id")
+			f.mu.Lock()
 		case "nilid":
 			return resp, nil
 		case "unknownid":
@@ -446,7 +460,7 @@ func (a *engineAPI) ForkchoiceUpdatedV3(update engine.ForkchoiceStateV1, attr *e
 	txs = append(txs, f.UserTxs...)
 	reqs := f.next.Encode(num)
 	blob := f.BlobGas
-	zero := uint64(0)
+	zero := f.ExcessBlob
 	ed := &engine.ExecutableData{
 		ParentHash: update.HeadBlockHash, FeeRecipient: attr.SuggestedFeeRecipient, LogsBloom: make([]byte, 256),
 		Random: attr.Random, Number: num, GasLimit: 30_000_000, Timestamp: attr.Timestamp, ExtraData: extra,
@@ -463,6 +477,13 @@ func (a *engineAPI) ForkchoiceUpdatedV3(update engine.ForkchoiceStateV1, attr *e
 	binary.BigEndian.PutUint64(id[:], b.nextID)
 	b.payloads[id] = &engine.ExecutionPayloadEnvelope{ExecutionPayload: ed, BlockValue: big.NewInt(0), Requests: reqs}
 	resp.PayloadID = &id
+	if overrideStatus != "" {
+		resp.PayloadStatus.Status = overrideStatus
+		if overrideStatus == engine.INVALID {
+			msg := "injected"
+			resp.PayloadStatus.ValidationError = &msg
+		}
+	}
 	c.Result = fmt.Sprintf("VALID id=%x", id[:])
 	c.Number = num
 	if ft == nil {
@@ -559,6 +580,17 @@ func (a *engineAPI) NewPayloadV4(ed engine.ExecutableData, hashes []common.Hash,
 		}
 	}
 	defer f.mu.Unlock()
+	// a real execution client first rebuilds the header from the fields it was given and compares the hash - also for a
+	// block it already has (only the genesis block, whose hash the fake client did not derive from fields, is exempt)
+	if ed.BlockHash != f.B.Genesis && BlockHashOf(&ed, br, rr) != ed.BlockHash {
+		msg := "blockhash mismatch"
+		st.Status, st.ValidationError = engine.INVALID, &msg
+		c.Result = "INVALID(hash)"
+		if ft == nil {
+			f.logCall(c)
+		}
+		return st, nil
+	}
 	// a block the client already has (the genesis block after a failed first block message, or the
 	// unchanged head that is re-announced when a block message failed) is simply VALID
 	f.B.mu.Lock()
@@ -566,16 +598,6 @@ func (a *engineAPI) NewPayloadV4(ed engine.ExecutableData, hashes []common.Hash,
 	f.B.mu.Unlock()
 	if isKnown && known.Number == ed.Number {
 		c.Result = "VALID(known)"
-		if ft == nil {
-			f.logCall(c)
-		}
-		return st, nil
-	}
-	// a real execution client recomputes the header hash
-	if BlockHashOf(&ed, br, rr) != ed.BlockHash {
-		msg := "blockhash mismatch"
-		st.Status, st.ValidationError = engine.INVALID, &msg
-		c.Result = "INVALID(hash)"
 		if ft == nil {
 			f.logCall(c)
 		}
